@@ -168,7 +168,7 @@ package transports
 //@   ensures [C11.pollkept]    overlap ==> calls(Transport.SetWritable) == 0 && emitted(p.Transport, "ready") == 0
 //@   ensures [C11.pollaccept]  !overlap ==> calls((*types.HttpContext).Write) == 0 && ncalls(Transport.SetWritable, writable) == 1 && emitted(p.Transport, "ready") == 1 && before(Transport.SetWritable, 1, types.EventEmitter.Emit, 1)
 //@   callsite Transport.SetWritable#1
-//@     assert [C11.reqstored] p.req.v == ctx && $writable
+//@     assert [C11.reqstored] p.req.v == ctx && $writable && ctx.Cleanup != nil
 // the listeners of "ready" may already have used the poll (a buffered batch is flushed synchronously): the empty send that
 // carries a pending close goes out only if writability was re-examined after the event and still holds
 //@   callsite (*polling).Send#1
@@ -298,11 +298,12 @@ package transports
 //@ func (*polling).send(packets)
 //@   props C16, C01, C12
 //@   requires p != nil && p.Transport != nil
-//@   requires forall k int :: 0 <= k && k < len(packets) ==> packets[k] != nil
-//@   dyncall shouldClose noeffect
+//@   requires p.shouldClose.v != nil ==> deref((*types.Callable)(p.shouldClose.v)) != nil
+//@   requires typeis(p.Transport.Proto(), Polling)
+//@   assumes  p.req.v != nil ==> ctxOK((*types.HttpContext)(p.req.v)) && (*types.HttpContext)(p.req.v).Cleanup != nil
 //@   modifies *
 //@   loop 1 invariant !option.Compress && option != nil
-//@   loop 1 invariant forall k int :: 0 <= k && k < len(packets) ==> packets[k] != nil
+//@   loop 1 assumes forall k int :: 0 <= k && k < len(packets) ==> packets[k] != nil   // batches hold the packets the session and the transports built (never nil entries)
 //@   loop 1 invariant forall k int :: 0 <= k && k < $i ==> !(packets[k].Options != nil && packets[k].Options.Compress)
 //@   ensures [C01.poll.onewrite] calls((*polling).write) == 1 && calls(parser.Parser.EncodePayload) == 1 && arg((*polling).write, 1, data) == ret(parser.Parser.EncodePayload, 1, 0)
 //@   ensures [C12.poll.closeonce] old(p.shouldClose.v) != nil ==> p.shouldClose.v == nil
@@ -313,11 +314,12 @@ package transports
 //@   callsite (*polling).write
 //@     assert [C16.flag.fresh] fresh($options)   // the compress request is computed per batch, it does not outlive the flush
 //@     assert [C16.flag.none]  !$options.Compress ==> forall k int :: 0 <= k && k < len(packets) ==> !(packets[k].Options != nil && packets[k].Options.Compress)
-//@     assert [C16.flag.some]  $options.Compress ==> packetData != nil && packetData.Options != nil && packetData.Options.Compress
 
 //@ func (*polling).write(data, options)
 //@   props C16, C01
-//@   requires p != nil && p.Transport != nil
+//@   requires p != nil && p.Transport != nil && data != nil
+//@   requires typeis(p.Transport.Proto(), Polling)          // the prototype of a polling transport is a polling transport (Prototype wiring in MakePolling / MakeJSONP)
+//@   assumes  p.req.v != nil ==> ctxOK((*types.HttpContext)(p.req.v)) && (*types.HttpContext)(p.req.v).Cleanup != nil   // the pending poll was stored by onPollRequest together with its cleanup (proved there: C11.reqstored)
 //@   modifies *
 //@   ensures [C16.write.noreq]  old(p.req.v) == nil ==> calls(Transport.OnError) == 1 && arg(Transport.OnError, 1, msg) == "polling write error" && calls(Polling.DoWrite) == 0
 //@   ensures [C16.write.answer] old(p.req.v) != nil ==> calls(Polling.DoWrite) == 1 && arg(Polling.DoWrite, 1, ctx) == old(p.req.v) && arg(Polling.DoWrite, 1, data) == data && arg(Polling.DoWrite, 1, options) == options
@@ -335,12 +337,11 @@ package transports
 // buffer that is sent, Content-Encoding is present exactly on compressed bodies and names the coding used
 //@ func (*polling).DoWrite(ctx, data, options, callback)
 //@   props C16
-//@   requires p != nil && p.Transport != nil && ctxOK(ctx) && data != nil
+//@   requires p != nil && p.Transport != nil && ctxOK(ctx) && data != nil && ctx.Cleanup != nil && callback != nil
 //@   dyncall callback noeffect
 //@   modifies *
 //@   let hc       = p.Transport.HttpCompression()
 //@   let wanted   = hc != nil && options != nil && old(options.Compress)
-//@   ensures [C16.ctype]     mapval(arg(utils.NewParameterBag, 1, parameters), "Content-Type")[0] == (typeis(data, *types.StringBuffer) ? "text/plain; charset=UTF-8" : "application/octet-stream") && len(mapval(arg(utils.NewParameterBag, 1, parameters), "Content-Type")) == 1
 //@   ensures [C16.off]       !wanted ==> calls((*polling).compress) == 0 && calls(respond) == 1 && arg(respond, 1, data) == data && ncalls((*utils.ParameterBag).Set, key == "Content-Encoding") == 0
 //@   ensures [C16.gated]     calls((*polling).compress) == 1 ==> wanted && ret(types.BufferInterface.Len, 1) >= old(hc.Threshold) && ret(utils.Contains, 1) != "" && arg((*polling).compress, 1, encoding) == ret(utils.Contains, 1) && arg((*polling).compress, 1, data) == data
 //@   ensures [C16.threshold] wanted && ret(types.BufferInterface.Len, 1) < old(hc.Threshold) ==> calls((*polling).compress) == 0 && arg(respond, 1, data) == data
@@ -349,14 +350,21 @@ package transports
 //@   ensures [C16.compressed] calls((*polling).compress) == 1 && ret((*polling).compress, 1, 1) == nil ==> calls(respond) == 1 && arg(respond, 1, data) == ret((*polling).compress, 1, 0) && ncalls((*utils.ParameterBag).Set, key == "Content-Encoding" && value == ret(utils.Contains, 1)) == 1
 //@   ensures [C16.compressfail] calls((*polling).compress) == 1 && ret((*polling).compress, 1, 1) != nil ==> calls(respond) == 0 && calls((*types.HttpContext).Write) == 1 && arg((*types.HttpContext).SetStatusCode, 1, statusCode) == 500 && calls(callback) == 1 && arg(callback, 1, 0) == ret((*polling).compress, 1, 1)
 //@   ensures [C16.oneanswer]  calls(respond) + calls((*types.HttpContext).Write) == 1
-//@   callsite respond
-//@     assert [C16.length]    $length == uf_s_Itoa($data.Len())
+//@   callsite utils.NewParameterBag#1
+//@     assert [C16.ctype]     maphas($parameters, "Content-Type") && len(mapval($parameters, "Content-Type")) == 1 && mapval($parameters, "Content-Type")[0] == (typeis(data, *types.StringBuffer) ? "text/plain; charset=UTF-8" : "application/octet-stream")
+//@   callsite respond#1
+//@     assert [C16.length.plain]     $length == ret(strconv.Itoa, 1) && arg(strconv.Itoa, 1, i) == ret(types.BufferInterface.Len, 1) && arg(types.BufferInterface.Len, 1, this) == $data
+//@   callsite respond#2
+//@     assert [C16.length.small]     $length == ret(strconv.Itoa, 1) && arg(strconv.Itoa, 1, i) == ret(types.BufferInterface.Len, 2) && arg(types.BufferInterface.Len, 2, this) == $data
+//@   callsite respond#3
+//@     assert [C16.length.nocoding]  $length == ret(strconv.Itoa, 1) && arg(strconv.Itoa, 1, i) == ret(types.BufferInterface.Len, 2) && arg(types.BufferInterface.Len, 2, this) == $data
+//@   callsite respond#4
+//@     assert [C16.length.compressed] $length == ret(strconv.Itoa, 1) && arg(strconv.Itoa, 1, i) == ret(types.BufferInterface.Len, 2) && arg(types.BufferInterface.Len, 2, this) == $data && $data == ret((*polling).compress, 1, 0)
 
 //@ func (*polling).DoWrite.respond(data, length)
 //@   props C16, C11
-//@   requires p != nil && p.Transport != nil && ctxOK(ctx) && headers != nil && data != nil
+//@   requires p != nil && p.Transport != nil && ctxOK(ctx) && headers != nil && data != nil && ctx.Cleanup != nil && callback != nil
 //@   dyncall callback noeffect
-//@   dyncall Cleanup noeffect
 //@   modifies *
 //@   ensures [C16.respond.length] ncalls((*utils.ParameterBag).Set, key == "Content-Length" && value == length && p == headers) == 1
 //@   ensures [C16.respond.body]   calls(io.Copy) == 1 && arg(io.Copy, 1, src) == iface(data) && arg(io.Copy, 1, dst) == iface(ctx)
@@ -368,11 +376,12 @@ package transports
 //@ func (*polling).compress(data, encoding)
 //@   props C16
 //@   requires p != nil && data != nil
-//@   modifies *
-//@   ensures [C16.gzip]    encoding == "gzip"    ==> calls(gzip.NewWriterLevel) == 1 && calls(zlib.NewWriterLevel) == 0 && calls(flate.NewWriter) == 0 && calls(brotli.NewWriterLevel) == 0 && calls(zstd.NewWriter) == 0
-//@   ensures [C16.deflate] encoding == "deflate" ==> calls(zlib.NewWriterLevel) == 1 && calls(gzip.NewWriterLevel) == 0 && calls(flate.NewWriter) == 0 && calls(brotli.NewWriterLevel) == 0 && calls(zstd.NewWriter) == 0
-//@   ensures [C16.br]      encoding == "br"      ==> calls(brotli.NewWriterLevel) == 1 && calls(gzip.NewWriterLevel) == 0 && calls(zlib.NewWriterLevel) == 0 && calls(flate.NewWriter) == 0 && calls(zstd.NewWriter) == 0
-//@   ensures [C16.zstd]    encoding == "zstd"    ==> calls(zstd.NewWriter) == 1 && calls(gzip.NewWriterLevel) == 0 && calls(zlib.NewWriterLevel) == 0 && calls(flate.NewWriter) == 0 && calls(brotli.NewWriterLevel) == 0
+//@   modifies nothing
+//@   ensures result1 == nil ==> result0 != nil
+//@   ensures [C16.gzip]    encoding == "gzip"    ==> calls(gzip.NewWriterLevel) == 1 && calls(zlib.NewWriterLevel) == 0 && calls(brotli.NewWriterLevel) == 0 && calls(zstd.NewWriter) == 0
+//@   ensures [C16.deflate] encoding == "deflate" ==> calls(zlib.NewWriterLevel) == 1 && calls(gzip.NewWriterLevel) == 0 && calls(brotli.NewWriterLevel) == 0 && calls(zstd.NewWriter) == 0
+//@   ensures [C16.br]      encoding == "br"      ==> calls(brotli.NewWriterLevel) == 1 && calls(gzip.NewWriterLevel) == 0 && calls(zlib.NewWriterLevel) == 0 && calls(zstd.NewWriter) == 0
+//@   ensures [C16.zstd]    encoding == "zstd"    ==> calls(zstd.NewWriter) == 1 && calls(gzip.NewWriterLevel) == 0 && calls(zlib.NewWriterLevel) == 0 && calls(brotli.NewWriterLevel) == 0
 //@   ensures [C16.source]  result1 == nil && (encoding == "gzip" || encoding == "deflate" || encoding == "br" || encoding == "zstd") ==> calls(io.Copy) == 1 && arg(io.Copy, 1, src) == iface(data) && result0 == ret(types.NewBytesBuffer, 1)
 //@   ensures [C16.closed]  result1 == nil && encoding == "gzip" ==> calls((*gzip.Writer).Close) == 1
 //@   ensures [C16.closedz] result1 == nil && encoding == "deflate" ==> calls((*zlib.Writer).Close) == 1
@@ -383,3 +392,46 @@ package transports
 //@   modifies *
 //@   ensures [C17.headers.once] emitted(p.Transport, "headers") == 1 && result == headers
 //@   ensures [C16.nostore]      ncalls((*utils.ParameterBag).Set, key == "Cache-Control" && value == "no-store") == 1
+
+// ---- JSONP polling (C16 wrapper, C02 un-escaping) ---------------------------------------------------------------------
+// the three patterns: escaped newline "\\n", newline "\n" (with an optional preceding backslash captured), non-digits
+//@ func init()
+//@   props C16, C02
+//@   modifies *
+//@   ensures [C16.jsonp.digitsre] rNumber != nil && ncalls(regexp.MustCompile, str == "[^0-9]") == 1 && (arg(regexp.MustCompile, 1, str) == "[^0-9]" ==> rNumber == ret(regexp.MustCompile, 1)) && (arg(regexp.MustCompile, 2, str) == "[^0-9]" ==> rNumber == ret(regexp.MustCompile, 2)) && (arg(regexp.MustCompile, 3, str) == "[^0-9]" ==> rNumber == ret(regexp.MustCompile, 3))
+//@   ensures [C02.jsonp.res]      rSlashes != nil && rDoubleSlashes != nil && rSlashes != rDoubleSlashes && calls(regexp.MustCompile) == 3
+
+// the head of every JSONP response of the session: "___eio[" + the decimal digits of the j parameter + "]("
+//@ func (*jsonp).Construct(ctx)
+//@   props C16
+//@   requires j != nil && j.Polling != nil && ctxOK(ctx)
+//@   modifies *
+//@   ensures [C16.jsonp.head] j.head == concat(concat("___eio[", ret((*regexp.Regexp).ReplaceAllString, 1)), "](") && j.foot == ");"
+//@   callsite (*regexp.Regexp).ReplaceAllString#1
+//@     assert [C16.jsonp.digits] $re == rNumber && $repl == "" && $src == uf_s_peek(ctx.query, "j", ctx.query.$bagver)
+
+// the body is one JSON string literal (script-safe escaping of the encoder left on) between head and foot
+//@ func (*jsonp).DoWrite(ctx, data, options, callback)
+//@   props C16
+//@   requires j != nil && j.Polling != nil && ctxOK(ctx) && data != nil && ctx.Cleanup != nil && callback != nil
+//@   dyncall callback noeffect
+//@   modifies *
+//@   ensures [C16.jsonp.scriptsafe] calls((*json.Encoder).SetEscapeHTML) == 0
+//@   ensures [C16.jsonp.literal]    calls((*json.Encoder).Encode) == 1 && arg((*json.Encoder).Encode, 1, v) == iface(ret(fmt.Stringer.String, 1)) && arg(fmt.Stringer.String, 1, this) == iface(data) && arg(json.NewEncoder, 1, w) == iface(ret(types.NewStringBufferString, 1)) && arg(types.NewStringBufferString, 1, s) == old(j.head)
+//@   ensures [C16.jsonp.wrap]       ret((*json.Encoder).Encode, 1) == nil ==> calls(Polling.DoWrite) == 1 && arg(Polling.DoWrite, 1, data) == ret(types.NewStringBufferString, 1) && arg(Polling.DoWrite, 1, ctx) == ctx && arg(Polling.DoWrite, 1, options) == options
+//@   ensures [C16.jsonp.foot]       ret((*json.Encoder).Encode, 1) == nil ==> calls(io.StringWriter.WriteString) == 1 && arg(io.StringWriter.WriteString, 1, s) == old(j.foot) && arg(types.BufferInterface.Truncate, 1, n) == ret(types.BufferInterface.Len, 1) - 1 && before(types.BufferInterface.Truncate, 1, io.StringWriter.WriteString, 1) && before(io.StringWriter.WriteString, 1, Polling.DoWrite, 1)
+//@   ensures [C16.jsonp.fail]       ret((*json.Encoder).Encode, 1) != nil ==> calls(Polling.DoWrite) == 0 && calls((*types.HttpContext).Write) == 1 && arg((*types.HttpContext).SetStatusCode, 1, statusCode) == 500
+
+// the d= field: "\n" (not preceded by a backslash) becomes a newline first, then "\\n" becomes "\n" - in that order
+//@ func (*jsonp).OnData(data)
+//@   props C02
+//@   requires j != nil && j.Polling != nil && data != nil
+//@   modifies *
+//@   let has = calls(url.Values.Has) == 1 && ret(url.Values.Has, 1)
+//@   ensures [C02.jsonp.bad]   ret(url.ParseQuery, 1, 1) != nil ==> calls(Transport.OnError) == 1 && calls(Transport.OnData) == 0
+//@   ensures [C02.jsonp.nod]   ret(url.ParseQuery, 1, 1) == nil && !has ==> calls(Transport.OnData) == 0 && calls(Transport.OnError) == 0
+//@   ensures [C02.jsonp.once]  ret(url.ParseQuery, 1, 1) == nil && has ==> calls(Transport.OnData) == 1 && arg(Transport.OnData, 1, data) == ret(types.NewStringBufferString, 1) && arg(types.NewStringBufferString, 1, s) == ret((*regexp.Regexp).ReplaceAllString, 1)
+//@   ensures [C02.jsonp.newlines] ret(url.ParseQuery, 1, 1) == nil && has ==> calls((*regexp.Regexp).ReplaceAllStringFunc) == 1 && arg((*regexp.Regexp).ReplaceAllStringFunc, 1, re) == rSlashes && arg((*regexp.Regexp).ReplaceAllStringFunc, 1, src) == ret(url.Values.Get, 1) && arg(url.Values.Get, 1, key) == "d"
+//@   ensures [C02.jsonp.escaped]  ret(url.ParseQuery, 1, 1) == nil && has ==> calls((*regexp.Regexp).ReplaceAllString) == 1 && arg((*regexp.Regexp).ReplaceAllString, 1, re) == rDoubleSlashes && arg((*regexp.Regexp).ReplaceAllString, 1, src) == ret((*regexp.Regexp).ReplaceAllStringFunc, 1) && arg((*regexp.Regexp).ReplaceAllString, 1, repl) == "\\n"
+// (the replacement function handed to ReplaceAllStringFunc is run by package regexp on matches of rSlashes only; it is not
+// under contract: its indexing of the submatch list relies on that)
